@@ -4,7 +4,7 @@ and adds what it observed to `obs` (a Counter)."""
 import collections
 import json
 
-from common import CREATED, IRQ, MSG, NONERR_END, OPEN, TERM, V, rank
+from common import CREATED, IRQ, MSG, NONERR_END, OPEN, TERM, TERMINAL_ACTIONS, V, rank
 
 
 def _causes(h):
@@ -598,9 +598,12 @@ def mon_c05_generic(h, sc, obs):
         if e_['via'] == 'set':
             writes[(e_['pid'], e_['tid'])].append(e_)
     evs = sorted([('s', e['seq'], e) for e in h.states if e['via'] == 'set'] + [('a', a['call'], a) for a in h.actions] + [('c', e['seq'], e) for e in h.cbs if e['what'] != 'start'], key=lambda x: x[1])
+    closed_as = {}
     for kind, _, e in evs:
         if kind == 's':
             last[(e['pid'], e['tid'])] = e['new']
+            if e['new'] in TERM and e['new'] != 'error':
+                closed_as.setdefault((e['pid'], e['tid']), e['new'])
             if e['new'] in OPEN and e['old'] in ('none', 'ready'):
                 opened[(e['pid'], e['tid'])] = e['seq']
         elif kind == 'c':
@@ -619,11 +622,26 @@ def mon_c05_generic(h, sc, obs):
                 st = None
             if st in TERM:
                 out.append(V('C05', 'accepted-on-terminal-act', f"{e['action']}:{st}", f"{e['action']} was accepted on act {e['tid']} whose last recorded state was {st}"))
+            elif st is not None and k in closed_as and e['action'] in TERMINAL_ACTIONS:
+                # (an act that FAILED may be taken by a catch and go on; an act that was completed, submitted, skipped,
+                # removed, backed, cancelled or aborted is closed for good)
+                out.append(V('C05', 'accepted-on-reopened-act', f"{e['action']}:{closed_as[k]}->{st}", f"{e['action']} was accepted on act {e['tid']}, which had been closed as {closed_as[k]} before and is {st} again"))
             elif ended.get(e['pid']) in NONERR_END and opened.get(k, 0) > ended_seq[e['pid']]:
                 # (an act that was left open when the process ended is C03's subject, with its causes; here: an act that
                 # was only opened after the process had ended)
                 why = why_open(h, sc, facts, k)
                 out.append(V('C05', 'accepted-on-ended-process', f"{ended[e['pid']]}:opened-after-the-end:{why}", f"{e['action']} was accepted on act {e['tid']}, which was opened after the process had delivered its {ended[e['pid']]} event [{why}]"))
+    # what follows a task is created once: two tasks of one node with the same predecessor
+    if not any(a['ok'] and a['action'] in ('back', 'cancel') for a in h.actions):
+        twice = collections.Counter((e['pid'], e['prev'], e['nid']) for e in h.creates if e.get('prev'))
+        obs['c05.successor-creations-checked'] += len(twice)
+        for (pid, prev, nid), n in twice.items():
+            if n > 1:
+                kind_ = next((e['kind'] for e in h.creates if e['pid'] == pid and e['nid'] == nid), '?')
+                if (sc.get('sched') or '').startswith('composite'):
+                    out.append(V('C05', 'successor-created-twice', kind_, f"{n} tasks of node {nid} were created after task {prev}"))
+                else:
+                    obs['c05.successor-created-twice-outside-the-composite-part'] += 1
     return out
 
 
